@@ -1,11 +1,11 @@
 """Property -> units table and notes shared by all checks."""
 
 PROPS = {
-    "C02": {"units": ["U3", "U4", "U5", "U6a", "U6b", "U6c", "U7"], "min_obligations": 20,
+    "C02": {"units": ["U3", "U4", "U5", "U6a", "U6b", "U6c", "U7", "U2"], "min_obligations": 20,
             "note": "rewriting only adds instrumentation: shape/erasure/order contracts on every constructor and transform"},
-    "C03": {"units": ["U3", "U4", "U5", "U7"], "min_obligations": 10,
+    "C03": {"units": ["U3", "U4", "U5", "U7", "U2"], "min_obligations": 10,
             "note": "hook receives true result and operands in order: mirror clauses (argument list == operands left in the wrapped expression)"},
-    "C04": {"units": ["U4", "U5", "U6b", "U6c"], "min_obligations": 6,
+    "C04": {"units": ["U4", "U5", "U6b", "U6c", "U2"], "min_obligations": 6,
             "note": "every enabled operation instrumented: expr_done postcondition of the dispatcher, NotModified-only-if-literal lemmas of the transforms; traversal (children reach the visitor) is the assumed swc contract"},
     "C05": {"units": ["U2", "U2b", "U3", "U4", "U5", "U6b", "U9", "U11"], "min_obligations": 5, "kani": True,
             "note": "configuration honoured: operator gates, hook names taken from the configured dst, disabled operators untouched"},
@@ -23,7 +23,7 @@ PROPS = {
             "note": "totality: Verus' implicit obligations (no overflow, no failing unwrap/index/slice, every loop and recursion terminates) on every verified function of every unit; glue functions pinned + panic witnesses"},
     "C14": {"units": ["U8", "U11"], "min_obligations": 8,
             "note": "literal report: length window, require/RegExp exclusions, which sub-trees are visited, disabled => no report; line/column shaping (get_result) is a pinned trusted leaf"},
-    "C15": {"units": ["U1", "U4", "U5", "U6b", "U6c", "U7", "U2b", "U11", "U9"], "min_obligations": 10,
+    "C15": {"units": ["U1", "U4", "U5", "U6b", "U6c", "U7", "U2b", "U11", "U9", "U2"], "min_obligations": 10,
             "note": "metrics == instrumentation emitted: per-call contracts on update_status/Telemetry (U1) and on every update_status call site of visit_mut_expr (U6)"},
 }
 
